@@ -276,7 +276,10 @@ def _luba(run, repo, world, folder):
                                       (False, False, None),
                                       (False, False, "R")):
                 case = {"nbytes": nb, "sendtwice": tw, "response": resp,
-                        "is_DAPC": dapc, "is__StandardCommand": std}
+                        "is_DAPC": dapc, "is__StandardCommand": std,
+                        # 16-bit frames are control gear commands
+                        "is__GearCommand": nb == 2,
+                        "is_Command": True}
                 r = WireEval(world, folder, cls, case).run(
                     fn, {"self": SelfObj(cls), "tx": CmdObj(case)})
                 ncase += 1
@@ -313,6 +316,22 @@ def _luba(run, repo, world, folder):
                     (mode & 0x78) == 0 and (mode & 7) in sp["priority_values"]
                 if isinstance(mode, int):
                     prios.add(mode & 7)
+                    pol = sp.get("priority_policy")
+                    if pol and nb == 2:
+                        wantp = pol["dapc"] if dapc else (
+                            pol["standard_plain"] if (std and not resp and
+                                                      not tw)
+                            else pol["other"])
+                        run.ob("R-WIRE-LUBA", P + ".send_dali_command"
+                               "#priority:%s%s%s" % (
+                                   "DAPC" if dapc else "standard" if std
+                                   else "special", "+query" if resp else "",
+                                   "+twice" if tw else ""),
+                               (mode & 7) == wantp,
+                               "priority %d for %s; the driver's policy "
+                               "(spec/wire/luba.json) is %d" % (
+                                   mode & 7, key, wantp), where(mod, fn),
+                               trivial=True)
                 run.ob("R-WIRE-LUBA", P + ".send_dali_command#template", ok,
                        "for %s the frame written is %s; the protocol wants "
                        "%s + [mode: priority | 0x80 iff send-twice] + %s + "
